@@ -94,7 +94,7 @@ def run(ctx):
     ctx.rule = ("EXHAUSTIVE over all ordered variable lists on a 3-letter alphabet (16 lists; 4 letters / 65 lists in thorough) for each "
                 "operand (permutations, subsets, supersets, disjoint, overlapping, empty) x {+,-,*,/,%,==} x {Dual, Dual2} x shared / "
                 "unshared Arc when the lists are equal; coefficients random small dyadics incl. zeros; == cases include operands equal "
-                "by name on different layouts. Observables: vars() in order, real, dual, dual2 arrays, bool. Non-trivial = operands "
+                "by name on different layouts. Observables: the set of vars() (duplicate-free), real, and the dual / dual2 arrays BY NAME (stored order is not part of the property and is canonicalised), bool. Non-trivial = operands "
                 "with different variable lists; distinct by encoded case.")
     ctx.trusted = [
         "Coq 8.16.1 kernel; theorems over R (stdlib real-number axioms + constructive_indefinite_description through the NumR instance)",
